@@ -705,4 +705,13 @@ example : ∃ seF : Scanner, callBuiltin (8 + 1) 0 exA3 "eexec" =
 #print axioms eexec_begin_col0
 #print axioms exDscLeadBytes
 
+/-- Chunked streams stay in step (all states, all chunkings): what the reader recovers from an encrypted chunk `a`
+followed by further cipher bytes `cs` is `a` followed by the decryption of `cs` from the state the writer was left in.
+Together with `Cipher.dec_enc` this is why an eexec section written in any number of flushes reads back whole. -/
+theorem chunked_in_step (r : UInt16) (a cs : List UInt8) :
+    PsVerif.Model.Cipher.decrypt r (PsVerif.Model.Cipher.encrypt r a ++ cs) =
+      a ++ PsVerif.Model.Cipher.decrypt
+        (PsVerif.Model.Cipher.stateAfter r (PsVerif.Model.Cipher.encrypt r a)) cs := by
+  rw [PsVerif.Proofs.EexecStream.decrypt_append, PsVerif.Props.Cipher.dec_enc]
+
 end PsVerif.Props.C05
